@@ -12,7 +12,7 @@
      the staged version, as for `git restore` (the former `IndexClean` is gone).
      A commit / amend / reset in which git sees a re-indented line as ADDED (the ids do not see whitespace) runs
      the `…Ws` reading of Model/Discard.lean: `no_invention_ws_step_partial` (one step deep from every reachable
-     state), `reset_keeps_reindented_lines_of_target` (the reset repaired by /repo c73c4deb keeps the lines of the
+     state), `reset_keeps_reindented_lines_of_target` (the reset repaired by /repo df029dce keeps the lines of the
      target and of its parent, decided and replayed on the binary).
   The model is tied to the binary by vlib/props/c03.py (`correspondence:discard-e2e`): the C03 walks and
   recipes inside the alphabet are replayed by the driver op `disc_run`, notes and blame must agree.
@@ -321,7 +321,7 @@ def fourAiCommits : State :=
     [.aiEdit 7 [1, 2, 3, 10], .stageAll, .commit, .aiEdit 7 [1, 2, 3, 10, 11], .stageAll, .commit,
      .aiEdit 7 [1, 2, 3, 10, 11, 12], .stageAll, .commit, .aiEdit 7 [1, 2, 3, 10, 11, 12, 13], .stageAll, .commit]
 
-/-- **the repaired reset (/repo c73c4deb), decided; replayed on the binary by vlib/props/c03.py `ws_witness`.**
+/-- **the repaired reset (/repo df029dce), decided; replayed on the binary by vlib/props/c03.py `ws_witness`.**
     A person re-indents the four AI lines (same ids, `re` = all four), `git reset --soft HEAD~1`: the lines of
     the undone commit (`13`), of the target (`12`) and of the target's parent (`11`: the boundary of
     `git blame target^!`) stay pending for session 7 at lines 5–7; `10`, two commits below the target, is
